@@ -20,7 +20,14 @@ vector<int> NumCalcApplicationTools::seqFromString(const std::string& s, const s
 
     if (st2->numberOfRemainingTokens() > 1)
     {
-      vector<int> tmp = VectorTools::seq(TextTools::toInt(st2->getToken(0)), TextTools::toInt(st2->getToken(1)), 1);
+      int from = TextTools::toInt(st2->getToken(0));
+      int to = TextTools::toInt(st2->getToken(1));
+      long long length = static_cast<long long>(to) - static_cast<long long>(from);
+      if (length < 0)
+        length = -length;
+      if (length >= 10000000)
+        throw Exception("NumCalcApplicationTools::seqFromString. Range too long: " + st2->getToken(0) + seqdelim + st2->getToken(1));
+      vector<int> tmp = VectorTools::seq(from, to, 1);
       VectorTools::append(seq, tmp);
     }
     else
